@@ -10,7 +10,7 @@ def run(repo, res, tier):
         "the two empty-value hooks resolve (MRO) to bodies that raise on every path, and ParseError from running out "
         "of tokens after '=' is not caught. E3: self.doc and the lexed text are one object; a whole-document regex "
         "rewrite before lexing must not remove line feeds (regex syntax tree). E-STATE: self.errors is fresh per "
-        "parse() call. T4: the permissive hook makes progress (no spin). Not decided: that the recorded number is "
+        "parse() call. T4: the permissive hook makes progress (no spin). F1: the text the parser numbers is the caller's (outcome terms of the entry points). Not decided: that the recorded number is "
         "right for every neighbourhood; order of statements.")
     effects.rule_e1(repo, res)
     effects.rule_e2(repo, res)
@@ -22,6 +22,9 @@ def run(repo, res, tier):
     from .. import langrules
     langrules.rule_kw_excl(repo, res, langrules.analyse(repo))
     effects.rule_estate(repo, res, families=("PVLParser",), floor=2)
+    # the recorded line numbers count lines of the caller's text: the entry points hand it to the parser unchanged
+    from .. import entryrules
+    entryrules.rule_f1(repo, res, "__init__")
     an = parserules.analyse(repo)
     t4 = parserules.add_rule(res, an, "T4")
     t4keys = {f"{f.function} `{f.anchor}`" for f in t4}
